@@ -214,6 +214,8 @@ def gen_panic(rng, tier):
     who = rng.choice(["mapper", "mapper", "mapper", "gen", "reducer", "two"])
     if fn in ("ForEach", "FinishVoid", "Finish"):
         items = [[] for _ in range(n)]
+        if fn == "ForEach" and rng.random() < 0.4:      # the generator panics after producing its items
+            return _case(rng, fn=fn, workers=_workers(rng), items=items[:rng.randint(0, n)], gpanic=202, cls="panic")
         for i in rng.sample(range(n), min(n, rng.choice([1, 1, 2]))):
             items[i] = [pn()]
         return _case(rng, fn=fn, workers=_workers(rng), items=items, rtake=0 if fn == "Finish" else -1, cls="panic")
@@ -314,8 +316,26 @@ def gen_cancel_race(rng, tier):
 
 
 def gen_panic_one_worker(rng, tier):
-    """a mapper panic with exactly one worker: WithWorkers(1), clamped WithWorkers(<=1), Finish/FinishVoid with one
-    function, ForEach with one worker: re-raised in the calling goroutine with its value"""
+    """a panic of a mapper, of the GENERATOR (after producing 0..k items) or of the reducer with exactly one worker:
+    WithWorkers(1), clamped WithWorkers(<=1), Finish/FinishVoid with one function, ForEach with one worker: re-raised in
+    the calling goroutine with its value - neither escaping in a library goroutine nor swallowed by a normal return"""
+    who = rng.choice(["mapper", "mapper", "gen", "gen", "gen", "reducer"])
+    workers = rng.choice([1, 1, 0, -1])
+    if who == "gen":
+        fn = rng.choice(["ForEach", "ForEach", "MapReduce", "MapReduceVoid"])
+        n = rng.randint(0, 4)
+        items = [[] if fn == "ForEach" else _writes(rng, 2) for _ in range(n)]
+        rafter = [_w(7)] if fn == "MapReduce" and rng.random() < 0.5 else []
+        return _case(rng, fn=fn, workers=workers, items=items, gpanic=202, rtake=rng.choice([-1, -1, 0, 1]),
+                     rafter=rafter, cls="panic1")
+    if who == "reducer":
+        fn = rng.choice(["MapReduce", "MapReduce", "MapReduceVoid"])
+        n = rng.randint(0, 4)
+        items = [_writes(rng, 2) for _ in range(n)]
+        rafter = [{"op": "panic", "k": 203}]
+        if fn == "MapReduce" and rng.random() < 0.4:
+            rafter.insert(0, _w(7))
+        return _case(rng, fn=fn, workers=workers, items=items, rtake=rng.choice([-1, -1, 0, 1]), rafter=rafter, cls="panic1")
     fn = rng.choice(FNS[:6])
     if fn in ("Finish", "FinishVoid"):
         return _case(rng, fn=fn, workers=1, items=[[{"op": "panic", "k": 201}]], rtake=0 if fn == "Finish" else -1,
@@ -324,7 +344,7 @@ def gen_panic_one_worker(rng, tier):
     items = [[] if fn == "ForEach" else _writes(rng, 2) for _ in range(n)]
     j = rng.randrange(n)
     items[j] = items[j][:rng.randint(0, len(items[j]))] + [{"op": "panic", "k": 201}]
-    return _case(rng, fn=fn, workers=rng.choice([1, 1, 0, -1]), items=items, rtake=-1, rafter=[], cls="panic1")
+    return _case(rng, fn=fn, workers=workers, items=items, rtake=-1, rafter=[], cls="panic1")
 
 
 def gen_ae(rng, tier):
@@ -368,7 +388,8 @@ def _suspicious(case):
     driver process of its own, so that a panic escaping in a library goroutine (process death) is pinned to the case"""
     if case["fn"] == "AtomicError":
         return False
-    panics = any(a["op"] == "panic" for it in case["items"] for a in it["acts"]) or case.get("gpanic", -1) >= 0
+    panics = (any(a["op"] == "panic" for it in case["items"] for a in it["acts"]) or case.get("gpanic", -1) >= 0
+              or any(a["op"] == "panic" for a in case.get("rafter", [])))
     return panics and _eff_workers(case) == 1
 
 
@@ -491,9 +512,9 @@ def _generate(rng, tier, n):
             c = gen_gate(rng, tier)
         elif r < 0.875:
             c = gen_cancel_race(rng, tier)
-        elif r < 0.89:
+        elif r < 0.895:
             c = gen_panic_one_worker(rng, tier)
-        elif r < 0.90:
+        elif r < 0.91:
             c = gen_ae(rng, tier)
         elif r < 0.94:
             c = gen_clean(rng, tier, big=True) if rng.random() < 0.5 else gen_cancel(rng, tier, big=True)
@@ -519,7 +540,7 @@ def search(rng, problems):
         out.append(_case(rng, workers=3, items=items, rtake=-1, rafter=[_w(7)], cls="search"))
     for _ in range(25):
         out.append(gen_cancel_race(rng, "search"))
-    for _ in range(12):
+    for _ in range(24):
         out.append(gen_panic_one_worker(rng, "search"))
     for _ in range(20):
         items = [[{"op": "cancel", "k": 101}, _w(1), _w(2)], [_w(1)]]
